@@ -1,17 +1,226 @@
 (* Property C02 -- Line shapes are normalised: spectral integral equals supplied radiance.
-   Nothing but the property theorems, each closed by a lemma from Proofs/, with Print Assumptions. *)
+   Nothing but the property theorems, each closed by lemmas from Proofs/, with Print Assumptions.
+
+   E (erf), sqrtQ, powQ, lnQ, expQ and I (the integrator applied to the Stark profile) are universally
+   quantified functions; the double constants (sqrt2, s2f, K) are universally quantified numbers.
+   [integral f g] = sum over all bins of f(i) * delta_wavelength;  [csbin g cs i] = what the component
+   list cs adds to bin i;  [total_rad cs] = sum of the component radiances. *)
 Require Import Cherab.Common.Qx.
 Require Import Cherab.Model.C02_LineShape.
-Require Import Cherab.Proofs.C02_Gauss.
+Require Import Cherab.Proofs.C02_Gauss Cherab.Proofs.C02_Norm Cherab.Proofs.C02_Weights.
 Open Scope Q_scope.
 
-(* the bin loop of add_gaussian_line, with its running lower_integral, early exits and
-   floor/ceil bin range, adds to bin i exactly R (Phi(edge_{i+1}) - Phi(edge_i)) / delta
-   (Phi = (1 + E)/2, the bin average of the profile) on [start, end) and nothing elsewhere:
-   for every function E in place of erf, every grid, every number of bins *)
+(* 1. the bin loop of add_gaussian_line, with its running lower_integral, early exits and floor/ceil
+   bin range, adds to bin i exactly R (Phi(edge_{i+1}) - Phi(edge_i)) / delta (Phi = (1 + E)/2: the bin
+   average of the profile) on [start, end) and nothing elsewhere: any E, any grid, any number of bins *)
 Theorem C02_gauss_loop_is_bin_average :
   forall (E : Q -> Q) (sqrt2 R lam sig : Q) (g : grid) (smp : list Q) (i : nat),
   length smp = Z.to_nat (gbins g) ->
   nth i (add_gaussian E sqrt2 R lam sig g smp) 0 == nth i smp 0 + gbin E sqrt2 R lam sig g (Z.of_nat i).
 Proof. exact add_gaussian_nth. Qed.
 Print Assumptions C02_gauss_loop_is_bin_average.
+
+(* 2. the same for add_lorentzian_line: bin i receives R * I(edge_i, edge_{i+1}) / delta on its range *)
+Theorem C02_lorentz_loop_is_bin_integral :
+  forall (I : Q -> Q -> Q -> Q -> Q) (R lam w : Q) (g : grid) (smp : list Q) (i : nat),
+  length smp = Z.to_nat (gbins g) ->
+  nth i (add_lorentzian I R lam w g smp) 0 == nth i smp 0 + lbin I R lam w g (Z.of_nat i).
+Proof. exact add_lorentzian_nth. Qed.
+Print Assumptions C02_lorentz_loop_is_bin_integral.
+
+(* 3. a model hands a list of components to the two routines one after the other: every bin ends up with
+   its old value plus the sum of the components' contributions, and the wavelength integral of the whole
+   is the sum of the components' integrals -- any number of components *)
+Theorem C02_components_add_up :
+  forall E sqrt2 I (g : grid) (cs : list comp),
+  (forall (smp : list Q) (i : nat), length smp = Z.to_nat (gbins g) ->
+     nth i (add_comps E sqrt2 I g cs smp) 0 == nth i smp 0 + csbin E sqrt2 I g cs (Z.of_nat i)) /\
+  integral (csbin E sqrt2 I g cs) g == Qsum (map (fun c => integral (cbin E sqrt2 I g c) g) cs).
+Proof. intros; split; [intros; now apply add_comps_nth | apply integral_comps]. Qed.
+Print Assumptions C02_components_add_up.
+
+(* 4. telescoping: the wavelength integral of what one Gaussian component adds is
+   R (Phi(edge_end) - Phi(edge_start)); zero when an early exit fires *)
+Theorem C02_gauss_integral_telescopes :
+  forall E sqrt2 R lam sig (g : grid), grid_ok g ->
+  (g_active g lam sig = true ->
+   integral (gbin E sqrt2 R lam sig g) g ==
+   R * (1 # 2) * (E (erfarg g lam (g_temp sqrt2 sig) (g_end g lam sig)) - E (erfarg g lam (g_temp sqrt2 sig) (g_start g lam sig)))) /\
+  (g_active g lam sig = false -> integral (gbin E sqrt2 R lam sig g) g == 0).
+Proof. intros; split; intros; [now apply gauss_integral | now apply gauss_integral_inactive]. Qed.
+Print Assumptions C02_gauss_integral_telescopes.
+
+(* 5. the visited bins are exactly the bins of the spectrum that meet (lam - 10 sigma, lam + 10 sigma); the early
+   exits fire exactly when sigma <= 0 or the window misses [lam - 10 sigma, lam + 10 sigma] *)
+Theorem C02_gauss_support :
+  forall (g : grid) lam sig, 0 < gdelta g ->
+  (forall i, (g_start g lam sig <= i < g_end g lam sig)%Z <->
+             (0 <= i < gbins g)%Z /\ g_cl lam sig < edge g (i + 1) /\ edge g i < g_cu lam sig) /\
+  (g_active g lam sig = true <-> 0 < sig /\ g_cl lam sig <= gmax g /\ gmin g <= g_cu lam sig).
+Proof. intros; split; [intros; now apply gauss_support | apply g_active_iff]. Qed.
+Print Assumptions C02_gauss_support.
+
+(* 6. window inside the line's cut-off range (line straddling / wider than the window): every bin is visited
+   and the integral is R (Phi(max) - Phi(min)) -- the fraction of the normalised profile inside the window *)
+Theorem C02_gauss_window_fraction :
+  forall E sqrt2 R lam sig (g : grid), grid_ok g -> 0 < sig ->
+  g_cl lam sig <= gmin g -> gmax g <= g_cu lam sig ->
+  g_start g lam sig = 0%Z /\ g_end g lam sig = gbins g /\
+  integral (gbin E sqrt2 R lam sig g) g ==
+  R * (1 # 2) * (E (erfarg g lam (g_temp sqrt2 sig) (gbins g)) - E (erfarg g lam (g_temp sqrt2 sig) 0)) /\
+  edge g 0 == gmin g /\ edge g (gbins g) == gmax g.
+Proof.
+  intros E sqrt2 R lam sig g Hg Hs Hl Hu. destruct (gauss_window_fraction E sqrt2 R lam sig g Hg Hs Hl Hu) as (A & B & C).
+  repeat split; [exact A | exact B | exact C | apply edge_0 | now apply edge_bins].
+Qed.
+Print Assumptions C02_gauss_window_fraction.
+
+(* 7. E monotone: every bin receives a non-negative amount; |E| <= 1: 0 <= integral <= R *)
+Theorem C02_gauss_bounds :
+  forall E sqrt2 R lam sig (g : grid), grid_ok g -> monotone E -> 0 < sqrt2 -> 0 <= R ->
+  (forall i, 0 <= gbin E sqrt2 R lam sig g i) /\
+  ((forall x, -1 <= E x <= 1) -> 0 <= integral (gbin E sqrt2 R lam sig g) g <= R).
+Proof. exact gauss_bounds. Qed.
+Print Assumptions C02_gauss_bounds.
+
+(* 8. PARTIAL.  Window spanning the line: the integral is at least R (E(10/sqrt2) - E(-10/sqrt2)) / 2 (and at most R
+   by 7).  Missing: the fact about erf that 1 - erf(10/sqrt 2) = 1.5e-23, i.e. that this is "the whole radiance". *)
+Theorem C02_gauss_total_partial :
+  forall E sqrt2 R lam sig (g : grid), grid_ok g -> monotone E -> 0 < sqrt2 -> 0 <= R -> 0 < sig ->
+  gmin g <= g_cl lam sig -> g_cu lam sig <= gmax g ->
+  R * (1 # 2) * (E (cutoff_sigma / sqrt2) - E (- (cutoff_sigma / sqrt2))) <= integral (gbin E sqrt2 R lam sig g) g.
+Proof. exact gauss_total_partial. Qed.
+Print Assumptions C02_gauss_total_partial.
+
+(* 9. what is added is linear in the radiance (both routines); a zero radiance adds nothing *)
+Theorem C02_line_linear :
+  forall E sqrt2 I a b R1 R2 lam wd (g : grid) i,
+  gbin E sqrt2 (a * R1 + b * R2) lam wd g i == a * gbin E sqrt2 R1 lam wd g i + b * gbin E sqrt2 R2 lam wd g i /\
+  lbin I (a * R1 + b * R2) lam wd g i == a * lbin I R1 lam wd g i + b * lbin I R2 lam wd g i /\
+  (forall cs, (forall c, In c cs -> c_rad c == 0) -> csbin E sqrt2 I g cs i == 0).
+Proof. intros; repeat split; [apply gbin_linear | apply lbin_linear | intros; now apply zero_radiance_adds_nothing]. Qed.
+Print Assumptions C02_line_linear.
+
+(* 10. Zeeman weights: with sin^2 := 1 - cos^2 the pi and the two sigma components carry the whole radiance, for
+   ZeemanTriplet and ParametrisedZeemanTriplet, for every field (also B = 0) and direction *)
+Theorem C02_zeeman_weights :
+  forall K sqrtQ powQ al be ga w m ts vel b R dir, Qle_bool ts 0 = false ->
+  total_rad (zeeman_triplet K sqrtQ PolNo w m ts vel b R dir) == R /\
+  total_rad (param_zeeman_triplet K sqrtQ powQ PolNo al be ga w m ts vel b R dir) == R.
+Proof. intros; split; [now apply zeeman_triplet_total | now apply param_zeeman_total]. Qed.
+Print Assumptions C02_zeeman_weights.
+
+(* 11. pi + sigma = unpolarised, bin by bin, for the four polarised models, every field (also B = 0), every grid *)
+Theorem C02_pi_plus_sigma_is_unpolarised :
+  forall E sqrt2 I K sqrtQ powQ lnQ expQ s2f (g : grid) w m ts vel b R dir i,
+  (csbin E sqrt2 I g (zeeman_triplet K sqrtQ PolNo w m ts vel b R dir) i ==
+   csbin E sqrt2 I g (zeeman_triplet K sqrtQ PolPi w m ts vel b R dir) i
+   + csbin E sqrt2 I g (zeeman_triplet K sqrtQ PolSigma w m ts vel b R dir) i) /\
+  (forall al be ga,
+   csbin E sqrt2 I g (param_zeeman_triplet K sqrtQ powQ PolNo al be ga w m ts vel b R dir) i ==
+   csbin E sqrt2 I g (param_zeeman_triplet K sqrtQ powQ PolPi al be ga w m ts vel b R dir) i
+   + csbin E sqrt2 I g (param_zeeman_triplet K sqrtQ powQ PolSigma al be ga w m ts vel b R dir) i) /\
+  (forall rp rsp rsm,
+   csbin E sqrt2 I g (zeeman_multiplet K sqrtQ PolNo rp rsp rsm w m ts vel b R dir) i ==
+   csbin E sqrt2 I g (zeeman_multiplet K sqrtQ PolPi rp rsp rsm w m ts vel b R dir) i
+   + csbin E sqrt2 I g (zeeman_multiplet K sqrtQ PolSigma rp rsp rsm w m ts vel b R dir) i) /\
+  (forall cij aij bij ne te,
+   csbin E sqrt2 I g (stark_line K sqrtQ powQ lnQ expQ s2f PolNo cij aij bij w m ne te ts vel b R dir) i ==
+   csbin E sqrt2 I g (stark_line K sqrtQ powQ lnQ expQ s2f PolPi cij aij bij w m ne te ts vel b R dir) i
+   + csbin E sqrt2 I g (stark_line K sqrtQ powQ lnQ expQ s2f PolSigma cij aij bij w m ne te ts vel b R dir) i).
+Proof.
+  intros; repeat split; intros;
+    [apply zeeman_triplet_pi_sigma | apply param_zeeman_pi_sigma | apply zeeman_multiplet_pi_sigma | apply stark_pi_sigma].
+Qed.
+Print Assumptions C02_pi_plus_sigma_is_unpolarised.
+
+(* 12. MultipletLineShape: component i carries R * ratio_i; together R * sum of the ratios (any number of components) *)
+Theorem C02_multiplet_shares :
+  forall K sqrtQ w m (mult : list (Q * Q)) ts vel R dir, Qle_bool ts 0 = false ->
+  total_rad (multiplet_line K sqrtQ w m mult ts vel R dir) == R * Qsum (map snd mult) /\
+  map c_rad (multiplet_line K sqrtQ w m mult ts vel R dir) = map (fun wr => R * snd wr) mult.
+Proof. exact multiplet_shares. Qed.
+Print Assumptions C02_multiplet_shares.
+
+(* 13. ZeemanStructure.evaluate: ratios of positive sum are renormalised to sum 1 (wavelengths untouched), others are
+   returned unchanged; then the ZeemanMultiplet components carry the whole radiance *)
+Theorem C02_zeeman_structure_normalised :
+  forall (raw : list (Q * Q)),
+  (0 < Qsum (map snd raw) -> Qsum (map snd (zs_evaluate raw)) == 1 /\ map fst (zs_evaluate raw) = map fst raw) /\
+  (~ 0 < Qsum (map snd raw) -> zs_evaluate raw = raw) /\
+  (forall K sqrtQ rsp rsm w m ts vel b R dir, Qle_bool ts 0 = false ->
+     0 < Qsum (map snd raw) -> 0 < Qsum (map snd rsp) -> 0 < Qsum (map snd rsm) ->
+     total_rad (zeeman_multiplet K sqrtQ PolNo raw rsp rsm w m ts vel b R dir) == R).
+Proof.
+  intros raw. destruct (zeeman_structure_normalised raw) as [A B].
+  repeat split; [apply A; assumption | apply A; assumption | exact B | intros; now apply zeeman_multiplet_total].
+Qed.
+Print Assumptions C02_zeeman_structure_normalised.
+
+(* 14. BeamEmissionMultiplet: the nine components carry the whole radiance; the sigma group s/(1+s) R, the pi group R/(1+s) *)
+Theorem C02_mse_weights :
+  forall K sqrtQ w bm bt be s2p s1s0 p2p3 p4p3 ne te b R bd od,
+  Qle_bool te 0 = false -> Qle_bool ne 0 = false ->
+  ~ 1 + s2p == 0 -> ~ s1s0 + 1 == 0 -> ~ 1 + p2p3 + p4p3 == 0 ->
+  let cs := mse_multiplet K sqrtQ w bm bt be s2p s1s0 p2p3 p4p3 ne te b R bd od in
+  total_rad cs == R /\ total_rad (firstn 3 cs) == s2p / (1 + s2p) * R /\ total_rad (skipn 3 cs) == 1 / (1 + s2p) * R.
+Proof. exact mse_weights. Qed.
+Print Assumptions C02_mse_weights.
+
+(* 15. StarkBroadenedLine: Lorentzian weight + Gaussian weight = 1 in all three branches, so the (up to six)
+   components carry the whole radiance whenever the line has any width *)
+Theorem C02_stark_weights :
+  forall K sqrtQ powQ lnQ expQ s2f cij aij bij w m ne te ts vel b R dir,
+  stark_widths K sqrtQ powQ lnQ expQ s2f cij aij bij w m ne te ts <> None ->
+  total_rad (stark_line K sqrtQ powQ lnQ expQ s2f PolNo cij aij bij w m ne te ts vel b R dir) == R.
+Proof. exact stark_total. Qed.
+Print Assumptions C02_stark_weights.
+
+(* 16. PARTIAL.  If the bin integrator is additive over adjacent intervals (an exact integral is) the Stark bins telescope
+   to R * I(edge_start, edge_end).  Missing: that the profile integrates to 1 over +-50 FWHM (the hypergeometric
+   constant STARK_NORM_COEFFICIENT) and that the code's Gauss-Legendre rule is additive to its tolerance -- it is not on
+   coarse grids, see the known finding *)
+Theorem C02_stark_integral_partial :
+  forall I R lam w (g : grid), grid_ok g -> additive (I lam w) ->
+  0 < w -> l_cl lam w <= gmax g -> gmin g <= l_cu lam w ->
+  integral (lbin I R lam w g) g == R * I lam w (edge g (l_start g lam w)) (edge g (l_end g lam w)).
+Proof. exact lorentz_integral. Qed.
+Print Assumptions C02_stark_integral_partial.
+
+(* 17. a line with no width adds nothing: the spectrum is returned unchanged (equal as lists) for species temperature
+   <= 0 in six models, and for the Stark model when in addition there is no electron broadening *)
+Theorem C02_zero_width_adds_nothing :
+  forall E sqrt2 I K sqrtQ powQ lnQ expQ s2f (g : grid) (smp : list Q) w m ts vel b R dir,
+  Qle_bool ts 0 = true ->
+  add_comps E sqrt2 I g (gaussian_line K sqrtQ w m ts vel R dir) smp = smp /\
+  (forall mult, add_comps E sqrt2 I g (multiplet_line K sqrtQ w m mult ts vel R dir) smp = smp) /\
+  (forall p, add_comps E sqrt2 I g (zeeman_triplet K sqrtQ p w m ts vel b R dir) smp = smp) /\
+  (forall p al be ga, add_comps E sqrt2 I g (param_zeeman_triplet K sqrtQ powQ p al be ga w m ts vel b R dir) smp = smp) /\
+  (forall p rp rsp rsm, add_comps E sqrt2 I g (zeeman_multiplet K sqrtQ p rp rsp rsm w m ts vel b R dir) smp = smp) /\
+  (forall p cij aij bij ne te, Qle_bool ne 0 = true \/ Qle_bool te 0 = true ->
+     add_comps E sqrt2 I g (stark_line K sqrtQ powQ lnQ expQ s2f p cij aij bij w m ne te ts vel b R dir) smp = smp) /\
+  (forall R' lam sig, Qle_bool sig 0 = true -> add_gaussian E sqrt2 R' lam sig g smp = smp).
+Proof.
+  intros; repeat split; intros;
+    [now apply zero_width_gaussian | now apply zero_width_multiplet | now apply zero_width_zeeman_triplet
+     | now apply zero_width_param_zeeman | now apply zero_width_zeeman_multiplet | now apply zero_width_stark
+     | now apply zero_sigma_adds_nothing].
+Qed.
+Print Assumptions C02_zero_width_adds_nothing.
+
+(* non-vacuity: a grid, a line and weights satisfying the hypotheses used above *)
+Definition witness_grid : grid := {| gmin := 650; gmax := 660; gbins := 20; gdelta := 1 # 2 |}.
+Example C02_nonvacuous :
+  grid_ok witness_grid /\ g_active witness_grid 656 (1 # 10) = true /\
+  (g_start witness_grid 656 (1 # 10) = 10 /\ g_end witness_grid 656 (1 # 10) = 14)%Z /\
+  monotone (fun x => x) /\ additive (fun a b => b - a) /\
+  0 < Qsum (map snd [(656, 1 # 2); (657, 3 # 2)]) /\ ~ 1 + (1 # 2) == 0.
+Proof.
+  split. { unfold grid_ok; cbn; repeat split; first [reflexivity | discriminate]. }
+  split. { vm_compute; reflexivity. }
+  split. { split; vm_compute; reflexivity. }
+  split. { intros x y H; exact H. }
+  split. { intros a b c; ring. }
+  split. { vm_compute; reflexivity. }
+  vm_compute; congruence.
+Qed.
